@@ -125,14 +125,8 @@ def issue(c, p, what, exp=None, obs=None):
     issues.append({"class": c, "property": p, "what": what, "expected": str(exp)[:200], "observed": str(obs)[:200]})
 
 
-for sname in S:
-    if sname == "LSPObject":
-        continue
-    C = getattr(T, sname, None)
-    if C is None or not attrs.has(C):
-        issue(sname, "", "missing class")
-        continue
-    ps = flat(sname)
+def check_class(sname, C, ps):
+    """one class against a (flattened / merged) property dict"""
     fs = {camel(a.name): a for a in attrs.fields(C)}
     for x in set(ps) - set(fs):
         issue(sname, x, "missing attribute")
@@ -159,6 +153,45 @@ for sname in S:
             issue(sname, name, "validator", exp_vk(p["type"], opt), vk(a.validator))
         if T.is_special_property(C, a.name) != (lit or null_adm(p["type"])):
             issue(sname, name, "special", lit or null_adm(p["type"]), T.is_special_property(C, a.name))
+
+
+for sname in S:
+    if sname == "LSPObject":
+        continue
+    C = getattr(T, sname, None)
+    if C is None or not attrs.has(C):
+        issue(sname, "", "missing class")
+        continue
+    check_class(sname, C, flat(sname))
+
+
+def and_props(items):
+    acc = {}
+    for i in items:
+        if i["kind"] == "reference" and i["name"] in S:
+            for n, p in flat(i["name"]).items():
+                acc.setdefault(n, p)
+        elif i["kind"] == "literal":
+            for p in i["value"]["properties"]:
+                acc.setdefault(p["name"], p)
+    return acc
+
+
+# anonymous 'and' / literal types used only by messages (registration options, params): the class METHOD_TO_TYPES names for them
+for msg in MM["requests"] + MM["notifications"]:
+    row = getattr(T, "METHOD_TO_TYPES", {}).get(msg["method"])
+    for key, idx in (("registrationOptions", 3), ("params", 2)):
+        t = msg.get(key)
+        if not isinstance(t, dict) or t["kind"] not in ("and", "literal"):
+            continue
+        ps = and_props(t["items"]) if t["kind"] == "and" else {p["name"]: p for p in t["value"]["properties"]}
+        if not ps:
+            continue
+        C = row[idx] if row else None
+        if not (isinstance(C, type) and attrs.has(C)):
+            issue(msg["method"], key, "no attrs class for the anonymous %s type" % t["kind"], None, C)
+            continue
+        check_class("%s (%s of %s)" % (C.__name__, key, msg["method"]), C, ps)
 for en, e in E.items():
     C = getattr(T, en, None)
     if C is None:
